@@ -4,6 +4,20 @@ open A07lib
 
 let k_acq = 24
 
+let string_of_hexs (h : string) : string =
+  if h = "-" then "" else String.init (String.length h / 2) (fun i -> Char.chr (int_of_string ("0x" ^ String.sub h (2 * i) 2)))
+
+(* strings.TrimSpace on ASCII text *)
+let go_trim (s : string) : string =
+  let is_sp c = c = ' ' || (c >= '\t' && c <= '\r') in
+  let n = String.length s in
+  let i = ref 0 and j = ref n in
+  while !i < n && is_sp s.[!i] do incr i done;
+  while !j > !i && is_sp s.[!j - 1] do decr j done;
+  String.sub s !i (!j - !i)
+
+let status_of_first (obs : string) : string = match split_blank obs with s :: _ -> s | [] -> ""
+
 let status_of (obs : string) : string =
   match List.rev (split_blank obs) with s :: _ -> s | [] -> ""
 
@@ -66,6 +80,8 @@ let prop_lines = List.map (fun s -> bytes_of_hex s)
 let site_of (c : string) : string =
   match split_blank c with
   | "cfghdr" :: _ -> "config-headers-DecodeHeader"
+  | "tfunc" :: _ -> "templater-function-arguments"
+  | "nosrc" :: fmt :: pre :: ps :: _ -> "provider-" ^ fmt ^ (if pre = "1" then "-preload" else "-fullscan") ^ (if ps = "0" then "" else "-passes")
   | ("ammo" | "pfx" | "trunc" | "badhdr") :: fmt :: file :: _ ->
       (match fmt with
        | "uripost" | "raw" -> "size-field-used-as-allocation-length"
@@ -88,6 +104,93 @@ let rec predict_inner (c : string) (obs : string) : string * string * bool =
   | ["ammo"; fmt; file] ->
       let (p, _) = decode_bytes fmt (bytes_of_hex file) in
       safe p
+  | ["tfunc"; t] ->
+      let text = string_of_hexs t in
+      (* templater.parseStr: name and comma separated, trimmed arguments *)
+      let (name, args) =
+        (match String.index_opt text '(' with
+         | None -> (text, [])
+         | Some i ->
+             let rest = String.sub text (i + 1) (String.length text - i - 1) in
+             let rest = if String.length rest > 0 && rest.[String.length rest - 1] = ')' then String.sub rest 0 (String.length rest - 1) else rest in
+             if rest = "" then (String.sub text 0 i, [])
+             else (String.sub text 0 i, List.map go_trim (String.split_on_char ',' rest))) in
+      let parse_int (a : string) : ZT.t option =
+        (* strconv.ParseInt(s, 10, 64) *)
+        let ok = String.length a > 0 &&
+          (let b = if a.[0] = '-' || a.[0] = '+' then String.sub a 1 (String.length a - 1) else a in
+           String.length b > 0 && String.for_all (fun c -> c >= '0' && c <= '9') b) in
+        if not ok then None
+        else begin
+          let z = ZT.of_string (if a.[0] = '+' then String.sub a 1 (String.length a - 1) else a) in
+          if ZT.fits_int64 z then Some z else None
+        end in
+      let st = status_of_first obs in
+      let p =
+        (match name with
+         | "randInt" ->
+             let range f t =
+               (match rand_int_range (z_of_zt f) (z_of_zt t) with
+                | VPanic -> "panic"
+                | VErr -> "err"
+                | VOk (lo, w) ->
+                    (* the value is random: it must lie in the modelled range *)
+                    (match split_blank obs with
+                     | ["ok"; "int"; v] ->
+                         let r = ZT.sub (ZT.of_string v) (zt_of_z lo) in
+                         if ZT.sign r >= 0 && ZT.lt r (zt_of_z w) then obs
+                         else Printf.sprintf "ok int in [%s, +%s)" (string_of_z lo) (string_of_z w)
+                     | _ -> Printf.sprintf "ok int in [%s, +%s)" (string_of_z lo) (string_of_z w))) in
+             (match List.map parse_int args with
+              | [] -> range ZT.zero ZT.zero
+              | [Some f] -> range f ZT.zero
+              | [Some f; Some t] -> range f t
+              | _ -> "err")
+         | "randString" ->
+             (match args with
+              | [] | [_] | [_; _] ->
+                  (match (match args with [] -> Some ZT.zero | a :: _ -> parse_int a) with
+                   | None -> "err"
+                   | Some n ->
+                       let n = if ZT.sign n = 0 then ZT.one else n in
+                       (match rand_string_alloc (z_of_zt n) with
+                        | VOk m -> "ok len " ^ string_of_z m
+                        | VErr -> "err"
+                        | VPanic -> "panic"))
+              | _ -> "err")
+         | "uuid" -> "ok len 36"
+         | _ -> "nofunc") in
+      ignore st;
+      safe p
+  | ["nosrc"; fmt; pre; ps; _; file] ->
+      (* passes / limit are enforced around the decoder: a run that ends at a bound without a
+         single delivery is "no ammo" (provider.runFullScan / runPreloaded) *)
+      let cfg = { c_limit = n_of_int 0; c_passes = n_of_int (if pre = "1" then 1 else int_of_string ps) } in
+      let fileb = bytes_of_hex file in
+      let k = k_acq in
+      let raw_pred =
+        (match fmt with
+         | "uri" -> print_run bld_entry k (uri_decode url_parse max_token cfg (nat_of_int k) fileb)
+         | "uripost" -> print_run bld_entry k (uripost_decode url_parse cfg (nat_of_int k) fileb)
+         | "raw" -> print_run bld_raw k (raw_decode cfg (nat_of_int k) fileb)
+         | _ ->
+             (match json_file fileb with
+              | JMiss -> "oracle-miss"
+              | JTokErr | JArr (false, _) -> "newerr"
+              | JArr (true, toks) ->
+                  (match json_array_decode url_parse cfg (nat_of_int k) (List.map parse_entity toks) with
+                   | None -> "newerr" | Some rs -> print_run bld_entry k rs)
+              | JStream (eof, toks) ->
+                  print_run bld_entry k (json_stream_decode url_parse cfg (nat_of_int k) (List.map parse_entity toks)
+                                           (if eof then JEof else JErr)))) in
+      let p = if raw_pred = "ok" then "noammo" else raw_pred in
+      (* specification: a source without entries is rejected with an error, whatever the mode *)
+      let st = status_of obs in
+      let v =
+        if bad_status st then "BAD:" ^ site_of c ^ " outcome " ^ st
+        else if not (List.mem obs ["noammo"; "err"; "newerr"]) then "BAD:empty-source-not-rejected outcome " ^ st
+        else "ok" in
+      (p, v, true)
   | ["cfghdr"; h] ->
       let hb = bytes_of_hex h in
       let p = (match decode_header hb with
